@@ -107,6 +107,23 @@ let dump_text (d : dump) : string =
   Printf.sprintf "m=%d i=%s g=%s c=%s s=%s" d.d_mask (string_of_z d.d_items) (string_of_z d.d_growth)
     (hex_of d.d_ctrl) (slots_text (table_of_dump d))
 
+
+(* address tie (Model/Addr.v, theorems of Properties/C02a.v): the dump's `ad=` field gives the address of
+   the first and of the last element slot relative to the block start (zero-sized T: the absolute dangling
+   address); the model says bucket_as_ptr (bucket_ptr i) *)
+let addr_tie (say : string -> unit) (where : string) (tsize : z) (talign : z) (dump_s : string) : unit =
+  let m = kvmap (words dump_s) in
+  match List.assoc_opt "ad" m, List.assoc_opt "a" m, List.assoc_opt "m" m with
+  | Some ad, Some a, Some mask when a <> "-" ->
+    (match String.split_on_char ',' ad, String.split_on_char ',' a with
+     | [a0; al], [_; _; off] ->
+       let off = zs off in
+       let expect i = string_of_z (bucket_as_ptr tsize talign (bucket_ptr tsize off (zs i))) in
+       if expect "0" <> a0 then say (Printf.sprintf "T-MISMATCH %s: address of element slot 0: model %s impl %s (block-relative; tsize %s)" where (expect "0") a0 (string_of_z tsize));
+       if expect mask <> al then say (Printf.sprintf "T-MISMATCH %s: address of element slot %s: model %s impl %s (block-relative; tsize %s)" where mask (expect mask) al (string_of_z tsize))
+     | _ -> ())
+  | _ -> ()
+
 let parse_kv3 (s : string) : kv =
   match String.split_on_char ':' s with
   | [k; st; v] -> { k_id = zs k; k_stamp = zs st; v_val = zs v }
@@ -800,6 +817,7 @@ let () =
          let tpre = table_of_dump pre and tpost = table_of_dump post in
          if chk_s <> "ok" then say "H-FAIL %s: harness check: %s" where chk_s;
          List.iter (fun fl -> if List.mem fl post.d_flags then say "H-FAIL %s: %s" where fl) ["MISALIGNED_CTRL"; "MISALIGNED_SLOT"; "SLOT_OUT_OF_BLOCK"];
+         addr_tie (fun m -> incr findings; print_endline m) where cfg.tsize cfg.talign post_s;
          capacity_oracles (fun m -> incr findings; print_endline m) where cfg.gw cfg.tsize cfg.calign opws pre post ret_s ev_s arm churn_max churn_ok;
          let armws = List.map words (String.split_on_char ';' arm) in
          let panic_key = List.fold_left (fun acc w -> match w with ["hashpanic_key"; k] -> Some (zs k) | _ -> acc) None armws in
@@ -975,6 +993,7 @@ let () =
            | _ -> op0) in
          if chk_s <> "ok" then say "H-FAIL %s: harness check: %s" where chk_s;
          if List.mem "MISALIGNED_CTRL" post.d_flags then say "H-FAIL %s: control bytes misaligned" where;
+         addr_tie (fun m -> incr findings; print_endline m) where cfg.tsize cfg.talign post_s;
          if !tgt = "A" || cfg.coll <> "set" then
            capacity_oracles (fun m -> incr findings; print_endline m) where cfg.gw cfg.tsize cfg.calign opws pre post ret_s ev_s arm churn_max churn_ok;
          if opname = "par_split" then begin
